@@ -106,7 +106,7 @@ def gen_case(rng):
         for k in range(rng.randint(1, 3)):
             if rng.random() < 0.45:
                 parents = [e["id"] for e in initial] + own
-                base = focus if rng.random() < 0.7 else rng.choice(parents)
+                base = focus if rng.random() < 0.5 else rng.choice(parents)
                 before = len(world["classes"])
                 entry = wg.new_class(1, base, name=f"T{tid}K{k}")
                 del world["classes"][before:]
@@ -114,6 +114,9 @@ def gen_case(rng):
                 # references must stay inside the initial family
                 ops.append({"op": "define", "entry": entry})
                 own.append(entry["id"])
+                if rng.random() < 0.6:
+                    # use the new class right away (its inherited part must be its parent's)
+                    ops.append({"op": "use", "cid": entry["id"], "arg": {"v": gen.random_json(rng)} if rng.random() < 0.3 else {"v": {}}})
             else:
                 pool = [e["id"] for e in initial] * 2 + own
                 cid = focus if rng.random() < 0.7 else rng.choice(pool)
